@@ -23,6 +23,7 @@ def dispatch (j : Json) : List (String × Json) :=
   | "ydata" => S.handleData j
   | "yfilter" => Cm.handleFilter j
   | "ycfg" => Cm.handleCfg j
+  | "yuses" => Cm.handleUses j
   | "yvals" => V.handle j
   | k => [("m", Json.str ("unknown-kind:" ++ k)), ("s", Json.str "unknown-kind")]
 
